@@ -65,7 +65,11 @@ CLAIMED["C02"] = dict(
           "*,_,#} and on random pairs every run. C02_located_where_read / C02_located_in_accepted_view: a searched target "
           "that is an exact piece of the raw extracted text (touching no deletion) is located at its first occurrence "
           "there with its own length, one that runs across deleted text at its occurrence in the accepted view - both "
-          "before any fuzzy lookup, whatever the fuzzy matchers return. The searched path (Adeu.Doc.applyEdits) is compared "
+          "before any fuzzy lookup, whatever the fuzzy matchers return. C02_effective_edit_same_text / "
+          "C02_heuristic_applies_effective_edit: what the searched path hands to the indexed step is an edit with the same "
+          "effect on the text as the request. C02_rewritten_insertion_reads_as_replacement: an insertion rewritten because "
+          "an edit landed inside it reads as its text with the range replaced, line breaks included (C02_split_breaks_join). "
+          "The searched path (Adeu.Doc.applyEdits) is compared "
           "with the real engine on one order of every generated batch (whole saved document). The engine clause (all exact "
           "unique non-overlapping edits applied, accepted text == string replacement, any order) is decided by an "
           "independent oracle on generated documents x batches x all orders — targets at every position relative to run / "
@@ -138,7 +142,9 @@ CLAIMED["C09"] = dict(
           "an input mark with unchanged id / author / date or carries the session's author, the session's date and an id "
           "handed out after the ids scanned at session start), C09_mark_attribution (author/date/id of every created mark), C09_ids_fresh (new ids exceed every "
           "id of the main part and the reachable header/footer parts), C09_comment_parts (a new comment is listed exactly "
-          "once in each of the four lists), C09_deltext_only_in_del. " + ENGINE_TIE + "Oracle: package validator on the "
+          "once in each of the four lists), C09_new_ids_above_old / C09_new_ids_differ_from_old (a new mark's id differs "
+          "from the id of every mark that was there, numeric or not), C09_comment_ids_stay_unique (the comments part keeps "
+          "pairwise distinct ids after any batch), C09_deltext_only_in_del. " + ENGINE_TIE + "Oracle: package validator on the "
           "saved bytes after edit batches, review actions, replies and a second round by another author (zip, "
           "well-formedness, content types, relationship targets, id uniqueness, ISO dates, nesting, comment triples, "
           "auxiliary parts; ids counted over every mark of a part, tracked paragraph marks and rows included)."),
@@ -148,7 +154,10 @@ CLAIMED["C09"] = dict(
 CLAIMED["C10"] = dict(
     text=("Lean theorems: C10_one_new_comment (exactly one appended comment with the text and the session's author, "
           "existing comments and stories untouched), C10_existing_untouched (for every mixed batch the existing entries of "
-          "all four comment lists are a prefix of the result's), C10_anchor_encloses, C10_reply_unknown_skipped. " + ENGINE_TIE +
+          "all four comment lists are a prefix of the result's), C10_new_comments_attributed (every entry of the result is an "
+          "existing entry or one written by this run: its author, not resolved, one paragraph, a numeral id above every "
+          "numeric id that was there), C10_comment_ids_stay_unique (+ _actions: distinct comment ids stay distinct after "
+          "any batch / review round), C10_anchor_encloses, C10_reply_unknown_skipped. " + ENGINE_TIE +
           "Oracle: every applied commented edit (replacement, insertion, deletion, multi-line, heading) has exactly one "
           "new comment anchored on its own marks and shown with them in the raw view; replies threaded and shown with "
           "their thread; unknown parents skipped."),
@@ -248,7 +257,10 @@ CLAIMED["C07"] = dict(
           "reports applied + skipped = its number of requests), C07_ids_fresh_every_round (in every document a history "
           "reaches, the ids a new session hands out exceed every numeric revision id present — input's and earlier "
           "rounds', any author, main part and reachable headers/footers), C07_history_frame (over any history every story "
-          "keeps its skeleton and every comment entry stays in place), C07_pending_resolvable, C07_accept_all_clean; the "
+          "keeps its skeleton and every comment entry stays in place), C07_marks_over_history (every mark at the end is an "
+          "original one or carries the author of one of the edit rounds), C07_comments_over_history (every comment entry at "
+          "the end is an original one or was written under a round's author), C07_comment_ids_unique_over_history, "
+          "C07_pending_resolvable, C07_accept_all_clean; the "
           "single-step theorems of C01/C06/C08/C09/C10 hold for every document, hence for every reached one. Model: "
           "Adeu.Doc.runHistory = fold of stepDoc (a new session opened on the saved document of the previous round). "
           "Correspondence: every round of every real history vs stepDoc on the independently read reached document, and "
